@@ -8,11 +8,11 @@ Modelled, branch by branch:
   `_ad_apply`, `_nested_commutator_result`, `_sequence_to_paulie_orientation`,
   the guards and the slicing of `compile_target` / `OptimalPauliCompiler.__init__`.
 
-NOT modelled: the search procedures (`SubsystemCompiler.subsystem_compiler`,
-`left_map_over_a`, `_case3_best_reordering`, `_bfs_case3`, `compile`).  The
+The search procedures (`SubsystemCompiler.subsystem_compiler`,
+`left_map_over_a`, `_case3_best_reordering`, `_bfs_case3`, `compile`, `compile_target`
+end to end) are modelled in `Model/CompilerSearch.lean`, on top of this file.  The
 property "every returned sequence is valid" is decided per output by the
-validator `validSeq` below (whose meaning is proved in `Properties/C05.lean`),
-"it always returns" by running the implementation.
+validator `validSeq` below (whose meaning is proved in `Properties/C05.lean`).
 
 Import-free apart from the model's own substrate.
 -/
@@ -132,10 +132,10 @@ def compileTargetFront (target : PS) (kLeft : Int) : Except Err (PS × PS) := do
 
 /-! ### Outputs of `compile_target` observed on the implementation
 
-The search procedures are not modelled, so these are *recorded observations*, not
-derived facts: the harness replays each of them on the implementation on every
-run (command `witness N k TARGET`) and a difference is a broken tie.  They are
-the witnesses of `C05_refuted` / the replayed findings of `C06`. -/
+Recorded observations of the first slice (command `witness N k TARGET`, replayed on the
+implementation on every run).  Since the search is modelled they are also DERIVED facts:
+`C05.observed_are_model_runs`, `C06.observed_raises_are_model_runs` (kernel-evaluated runs of
+`Compiler.compileTarget`). -/
 
 /-- `(N, k, target) ↦ returned sequence` -/
 def observedReturns : List ((Int × Int × PS) × List PS) :=
